@@ -235,8 +235,29 @@ def c_lower(c):
 
 
 # ---- folding the translator ------------------------------------------------
+def _element_reads(body, iv):
+    """Expressions `s[i]` / `s.at(i)` over a char sequence in body, i being the induction variable iv."""
+    out = []
+    for x in walk(body):
+        if x.get("w") != 8:
+            continue
+        idx = None
+        if x.get("k") == "CXXOperatorCallExpr" and x.get("op") == "[]" and len(x.get("c", [])) >= 3:
+            idx = x["c"][2]
+        elif x.get("k") == "CXXOperatorCallExpr" and x.get("op") == "[]" and len(x.get("c", [])) == 2:
+            idx = x["c"][1]
+        elif x.get("k") == "ArraySubscriptExpr":
+            idx = x["c"][1]
+        elif x.get("k") == "CXXMemberCallExpr" and x.get("callee_name") == "at" and len(x.get("c", [])) >= 2:
+            idx = x["c"][-1]
+        if idx is not None and (strip_all(idx) or {}).get("d") == iv:
+            out.append(x)
+    return out
+
+
 def _per_char_loops(prog, fn, depth=3):
-    """(function, range-for) pairs over characters, in fn and the repo functions it calls."""
+    """(function, loop, current-character designator) triples, in fn and the repo functions it calls.  The
+    designator is the loop variable of a range-for over characters, or the list of `s[i]` nodes of an indexed loop."""
     seen, todo, out = set(), [(fn, 0)], []
     while todo:
         f, d = todo.pop(0)
@@ -248,22 +269,56 @@ def _per_char_loops(prog, fn, depth=3):
                 lv = [x for x in walk(n["c"][n["parts"]["loopvar"]]) if x.get("k") == "VarDecl"]
                 if lv and lv[0].get("w") == 8:
                     out.append((f, n, lv[0]))
+            if n.get("k") == "ForStmt" and "body" in n.get("parts", {}) and "cond" in n["parts"]:
+                cond = strip_all(n["c"][n["parts"]["cond"]])
+                iv = (strip_all(cond["c"][0]) or {}).get("d") if cond and cond.get("k") == "BinaryOperator" and \
+                    cond.get("op") in ("<", "!=") else None
+                body = n["c"][n["parts"]["body"]]
+                reads = _element_reads(body, iv) if iv is not None else []
+                written = [x for x in walk(body) if x.get("k") in ("UnaryOperator", "BinaryOperator", "CompoundAssignOperator")
+                           and x.get("op") in ("++", "--", "=", "+=", "-=") and (strip_all(x["c"][0]) or {}).get("d") == iv]
+                if reads and not written:
+                    out.append((f, n, {"index": iv, "reads": reads, "sg": reads[0].get("sg")}))
             if d < depth and n.get("k") in ("CallExpr", "CXXMemberCallExpr"):
                 for g in prog.call_targets(f, n):
                     todo.append((g, d + 1))
     return out
 
 
-def _fragment(folder, f, loop, lv, w):
+def _fragment(prog, f, loop, lv, w):
     """What one iteration of the loop appends to its accumulator for character w."""
     sw = w - 256 if (lv.get("sg") and w >= 128) else w
-    env = {lv["d"]: sw}
     body = loop["c"][loop["parts"]["body"]]
-    folder.run_statements(f, [body], env)
-    acc = [d for d in env if d != lv["d"] and isinstance(env[d], (str, list))]
-    # locals declared inside the body are temporaries, not the accumulator
+    # the accumulator: a string or vector<char> of the enclosing function that the body designates
+    outer = {}
+    for x in f.walk():
+        if x.get("k") in ("VarDecl", "ParmVarDecl") and x.get("d") is not None:
+            outer[x["d"]] = x
+    for p_ in f.params:
+        outer[p_["d"]] = p_
     local = {x.get("d") for x in walk(body) if x.get("k") == "VarDecl"}
-    acc = [d for d in acc if d not in local]
+    if "index" in lv:
+        ids = {id(x) for x in lv["reads"]}
+        folder = StrFolder(prog, f, char_hook=lambda g, n, env: sw if id(n) in ids else None)
+        env = {}
+        for x in walk(body):
+            if x.get("k") == "DeclRefExpr" and x.get("d") in outer and x["d"] not in local and x["d"] != lv["index"]:
+                t = (outer[x["d"]].get("t") or "")
+                if ("basic_string" in t or "string" in t or "vector<char" in t) and "*" not in t and "const" not in t:
+                    env.setdefault(x["d"], [] if "vector" in t else "")
+        skip = {lv["index"]}
+    else:
+        folder = StrFolder(prog, f)
+        env = {lv["d"]: sw}
+        skip = {lv["d"]}
+    pre = dict(env)
+    folder.run_statements(f, [body], env)
+    acc = [d for d in env if d not in skip and d not in local and isinstance(env[d], (str, list))
+           and ("index" not in lv or env[d] != pre.get(d))]
+    if "index" in lv and not acc:
+        acc = [d for d in env if d not in skip and d not in local and isinstance(env[d], (str, list))]
+        if len(acc) != 1:
+            return ""
     if len(acc) != 1:
         raise Unfoldable("the loop body appends to %d accumulators" % len(acc))
     return as_text(env[acc[0]])
@@ -274,12 +329,11 @@ def rule_translation(prog, fixture=False):
                    "atom matching exactly what the AFSP semantics require", floor=0 if fixture else 200)
     for fn in prog.fnby("convert_wildcard_into_extended_regex", required=not fixture):
         loops = _per_char_loops(prog, fn)
-        folder = StrFolder(prog, fn)
         chosen = None
         why = "no loop over the characters of the wildcard found in %s or its callees" % fn.qn
         for (f, loop, lv) in loops:
             try:
-                frags = {w: _fragment(folder, f, loop, lv, w) for w in range(1, 256)}
+                frags = {w: _fragment(prog, f, loop, lv, w) for w in range(1, 256)}
             except Unfoldable as e:
                 why = "%s: the per-character loop could not be folded (%s)" % (f.loc(loop), e)
                 continue
@@ -362,7 +416,7 @@ FOLDERS = {"tolower", "toupper", "std::tolower", "std::toupper"}
 
 def rule_name_comparison(prog, fixture=False):
     r = RuleResult("R-C15-3", "names are compared case-insensitively by folding both characters with "
-                   "tolower/toupper, and has_name compares the directory exactly", floor=0 if fixture else 3)
+                   "tolower/toupper, and has_name compares the directory exactly", floor=0 if fixture else 2)
     for fn in prog.functions.values():
         if not (fn.qn.endswith("case_insensitive_less") or (fn.parent_key and "case_insensitive" in (fn.q or ""))):
             continue
@@ -372,6 +426,16 @@ def rule_name_comparison(prog, fixture=False):
                 l, rr = strip_all(n["c"][0]), strip_all(n["c"][1])
                 # only comparisons of characters (ints), not iterator comparisons
                 if not (l.get("w") and rr.get("w")):
+                    continue
+
+                def charish(e):
+                    # a fold call, a char-typed value, or something computed from one (not an index or a length)
+                    if e.get("k") == "CallExpr" and notpl(e.get("q") or "") in FOLDERS:
+                        return True
+                    return any((x.get("w") == 8 and x.get("k") in ("DeclRefExpr", "ArraySubscriptExpr", "UnaryOperator",
+                                                                  "CXXOperatorCallExpr", "MemberExpr", "CXXMemberCallExpr"))
+                               or (x.get("k") == "CallExpr" and notpl(x.get("q") or "") in FOLDERS) for x in walk(e))
+                if not (charish(l) or charish(rr)):
                     continue
                 k += 1
                 fl = l.get("k") == "CallExpr" and notpl(l.get("q") or "") in FOLDERS
